@@ -14,43 +14,43 @@ Section Inert.
 Variables pf64 pf32 : xstr -> option N.
 Variable fdiv : N -> Z -> N.
 
-Lemma check_type_ins e c c' : ins c c' -> check_type e c' = check_type e c.
+Lemma check_type_ins e c c' : fins c c' -> check_type e c' = check_type e c.
 Proof. intros H. unfold check_type. rewrite (ins_attribute _ _ _ H). reflexivity. Qed.
 
 (** * xml.rs *)
 Lemma opt_string_ins n n' nm :
-  ins n n' -> is_lookup_name nm = true -> opt_string n' nm = opt_string n nm.
+  fins n n' -> opt_string n' nm = opt_string n nm.
 Proof.
-  intros H Hn. unfold opt_string, opt_bind. apply opt_case_ins; [apply ins_find_child; assumption|].
+  intros H. unfold opt_string, opt_bind. apply opt_case_ins; [apply ins_find_child; assumption|].
   intros c c' Hc. rewrite (check_type_ins _ _ _ Hc), (ins_opt_text _ _ _ Hc). reflexivity.
 Qed.
 
 Lemma req_string_ins n n' nm :
-  ins n n' -> is_lookup_name nm = true -> req_string n' nm = req_string n nm.
-Proof. intros H Hn. unfold req_string. rewrite (opt_string_ins _ _ _ H Hn). reflexivity. Qed.
+  fins n n' -> req_string n' nm = req_string n nm.
+Proof. intros H. unfold req_string. rewrite (opt_string_ins _ _ _ H). reflexivity. Qed.
 
 Lemma opt_num_ins {T} (parse : xstr -> option T) n n' nm e :
-  ins n n' -> is_lookup_name nm = true -> opt_num parse n' nm e = opt_num parse n nm e.
+  fins n n' -> opt_num parse n' nm e = opt_num parse n nm e.
 Proof.
-  intros H Hn. unfold opt_num, opt_bind. apply opt_case_ins; [apply ins_find_child; assumption|].
+  intros H. unfold opt_num, opt_bind. apply opt_case_ins; [apply ins_find_child; assumption|].
   intros c c' Hc. rewrite (check_type_ins _ _ _ Hc), (ins_opt_text _ _ _ Hc). reflexivity.
 Qed.
 
 Lemma opt_f64_ins n n' nm :
-  ins n n' -> is_lookup_name nm = true -> opt_f64 pf64 n' nm = opt_f64 pf64 n nm.
-Proof. intros H Hn. unfold opt_f64. apply opt_num_ins; assumption. Qed.
+  fins n n' -> opt_f64 pf64 n' nm = opt_f64 pf64 n nm.
+Proof. intros H. unfold opt_f64. apply opt_num_ins; assumption. Qed.
 
 Lemma req_f64_ins n n' nm :
-  ins n n' -> is_lookup_name nm = true -> req_f64 pf64 n' nm = req_f64 pf64 n nm.
-Proof. intros H Hn. unfold req_f64. rewrite (opt_f64_ins _ _ _ H Hn). reflexivity. Qed.
+  fins n n' -> req_f64 pf64 n' nm = req_f64 pf64 n nm.
+Proof. intros H. unfold req_f64. rewrite (opt_f64_ins _ _ _ H). reflexivity. Qed.
 
 Lemma opt_int_ins parse n n' nm :
-  ins n n' -> is_lookup_name nm = true -> opt_int parse n' nm = opt_int parse n nm.
-Proof. intros H Hn. unfold opt_int. apply opt_num_ins; assumption. Qed.
+  fins n n' -> opt_int parse n' nm = opt_int parse n nm.
+Proof. intros H. unfold opt_int. apply opt_num_ins; assumption. Qed.
 
 Lemma req_int_ins parse n n' nm :
-  ins n n' -> is_lookup_name nm = true -> req_int parse n' nm = req_int parse n nm.
-Proof. intros H Hn. unfold req_int. rewrite (opt_int_ins _ _ _ _ H Hn). reflexivity. Qed.
+  fins n n' -> req_int parse n' nm = req_int parse n nm.
+Proof. intros H. unfold req_int. rewrite (opt_int_ins _ _ _ _ H). reflexivity. Qed.
 
 (** rewriting with the leaf extractors applied to the same node *)
 Ltac rw H :=
@@ -64,89 +64,89 @@ Ltac rw H :=
 
 (** * date_time.rs *)
 Lemma date_time_from_node_ins n n' :
-  ins n n' -> date_time_from_node pf64 n' = date_time_from_node pf64 n.
+  fins n n' -> date_time_from_node pf64 n' = date_time_from_node pf64 n.
 Proof.
   intros H. unfold date_time_from_node, req_node.
-  apply opt_case_ins2; [apply ins_find_child_typed; [assumption|reflexivity]| |reflexivity].
-  intros v v' Hv. rewrite (ins_node_text _ _ Hv). destruct (node_text v); [|reflexivity].
+  apply opt_case_ins2; [apply ins_find_child_typed; assumption| |reflexivity].
+  intros v v' Hv. rewrite (ins_elem_text _ _ Hv). destruct (elem_text v); [|reflexivity].
   apply res_bind_cong; [reflexivity|intros gps].
-  apply opt_case_ins; [apply ins_find_child_typed; [assumption|reflexivity]|].
+  apply opt_case_ins; [apply ins_find_child_typed; assumption|].
   intros a a' Ha. rewrite (ins_opt_text _ _ _ Ha). reflexivity.
 Qed.
 
 Lemma opt_date_time_ins n n' nm :
-  ins n n' -> is_lookup_name nm = true -> opt_date_time pf64 n' nm = opt_date_time pf64 n nm.
+  fins n n' -> opt_date_time pf64 n' nm = opt_date_time pf64 n nm.
 Proof.
-  intros H Hn. unfold opt_date_time, opt_bind. apply opt_case_ins; [apply ins_find_child; assumption|].
+  intros H. unfold opt_date_time, opt_bind. apply opt_case_ins; [apply ins_find_child; assumption|].
   intros c c' Hc. rewrite (check_type_ins _ _ _ Hc), (date_time_from_node_ins _ _ Hc). reflexivity.
 Qed.
 
 (** * transform.rs *)
 Lemma translation_from_node_ins n n' :
-  ins n n' -> translation_from_node pf64 n' = translation_from_node pf64 n.
+  fins n n' -> translation_from_node pf64 n' = translation_from_node pf64 n.
 Proof. intros H. unfold translation_from_node. rw H. reflexivity. Qed.
 
 Lemma quaternion_from_node_ins n n' :
-  ins n n' -> quaternion_from_node pf64 n' = quaternion_from_node pf64 n.
+  fins n n' -> quaternion_from_node pf64 n' = quaternion_from_node pf64 n.
 Proof. intros H. unfold quaternion_from_node. rw H. reflexivity. Qed.
 
 Lemma transform_from_node_ins n n' :
-  ins n n' -> transform_from_node pf64 n' = transform_from_node pf64 n.
+  fins n n' -> transform_from_node pf64 n' = transform_from_node pf64 n.
 Proof.
   intros H. unfold transform_from_node.
   apply res_bind_cong.
-  { apply opt_case_ins; [apply ins_find_child; [assumption|reflexivity]|].
+  { apply opt_case_ins; [apply ins_find_child; assumption|].
     intros c c' Hc. apply translation_from_node_ins; assumption. }
   intros t. apply res_bind_cong; [|reflexivity].
-  apply opt_case_ins; [apply ins_find_child; [assumption|reflexivity]|].
+  apply opt_case_ins; [apply ins_find_child; assumption|].
   intros c c' Hc. apply quaternion_from_node_ins; assumption.
 Qed.
 
 Lemma opt_node_ins {A} (f : xnode -> res A) n n' nm :
-  ins n n' -> is_lookup_name nm = true -> (forall c c', ins c c' -> f c' = f c) ->
+  fins n n' -> (forall c c', fins c c' -> f c' = f c) ->
   opt_node (find_child nm n') f = opt_node (find_child nm n) f.
 Proof.
-  intros H Hn Hf. unfold opt_node. apply opt_case_ins; [apply ins_find_child; assumption|].
+  intros H Hf. unfold opt_node. apply opt_case_ins; [apply ins_find_child; assumption|].
   intros c c' Hc. rewrite (Hf _ _ Hc). reflexivity.
 Qed.
 
 Lemma opt_transform_ins n n' nm :
-  ins n n' -> is_lookup_name nm = true -> opt_transform pf64 n' nm = opt_transform pf64 n nm.
+  fins n n' -> opt_transform pf64 n' nm = opt_transform pf64 n nm.
 Proof.
-  intros H Hn. unfold opt_transform. apply opt_node_ins; auto. apply transform_from_node_ins.
+  intros H. unfold opt_transform. apply opt_node_ins; auto. apply transform_from_node_ins.
 Qed.
 
 (** * bounds.rs *)
 Lemma cartesian_bounds_from_node_ins n n' :
-  ins n n' -> cartesian_bounds_from_node pf64 n' = cartesian_bounds_from_node pf64 n.
+  fins n n' -> cartesian_bounds_from_node pf64 n' = cartesian_bounds_from_node pf64 n.
 Proof. intros H. unfold cartesian_bounds_from_node. rw H. reflexivity. Qed.
 
 Lemma spherical_bounds_from_node_ins n n' :
-  ins n n' -> spherical_bounds_from_node pf64 n' = spherical_bounds_from_node pf64 n.
+  fins n n' -> spherical_bounds_from_node pf64 n' = spherical_bounds_from_node pf64 n.
 Proof. intros H. unfold spherical_bounds_from_node. rw H. reflexivity. Qed.
 
 Lemma index_bounds_from_node_ins n n' :
-  ins n n' -> index_bounds_from_node n' = index_bounds_from_node n.
+  fins n n' -> index_bounds_from_node n' = index_bounds_from_node n.
 Proof. intros H. unfold index_bounds_from_node. rw H. reflexivity. Qed.
 
 (** * limits.rs *)
 Lemma extract_limit_ins n n' nm :
-  ins n n' -> is_lookup_name nm = true ->
+  fins n n' ->
   extract_limit pf64 pf32 n' nm = extract_limit pf64 pf32 n nm.
 Proof.
-  intros H Hn. unfold extract_limit, opt_bind. apply opt_case_ins; [apply ins_find_desc; assumption|].
+  intros H. unfold extract_limit, opt_bind. apply opt_case_ins; [apply ins_find_child; assumption|].
   intros c c' Hc. rewrite !(ins_attribute _ _ _ Hc), (ins_opt_text _ _ _ Hc). reflexivity.
 Qed.
 
 Lemma intensity_limits_from_node_ins n n' :
-  ins n n' -> intensity_limits_from_node pf64 pf32 n' = intensity_limits_from_node pf64 pf32 n.
+  fins n n' -> intensity_limits_from_node pf64 pf32 n' = intensity_limits_from_node pf64 pf32 n.
 Proof.
   intros H. unfold intensity_limits_from_node.
   repeat rewrite (extract_limit_ins _ _ _ H) by reflexivity. reflexivity.
 Qed.
 
 Lemma color_limits_from_node_ins n n' :
-  ins n n' -> color_limits_from_node pf64 pf32 n' = color_limits_from_node pf64 pf32 n.
+  fins n n' -> color_limits_from_node pf64 pf32 n' = color_limits_from_node pf64 pf32 n.
 Proof.
   intros H. unfold color_limits_from_node.
   repeat rewrite (extract_limit_ins _ _ _ H) by reflexivity. reflexivity.
@@ -154,11 +154,11 @@ Qed.
 
 (** * record.rs *)
 Lemma optional_attribute_ins {T} (parse : xstr -> option T) n n' a :
-  ins n n' -> optional_attribute parse n' a = optional_attribute parse n a.
+  fins n n' -> optional_attribute parse n' a = optional_attribute parse n a.
 Proof. intros H. unfold optional_attribute. rewrite (ins_attribute _ _ _ H). reflexivity. Qed.
 
 Lemma data_type_from_node_ins n n' :
-  ins n n' -> data_type_from_node pf64 pf32 n' = data_type_from_node pf64 pf32 n.
+  fins n n' -> data_type_from_node pf64 pf32 n' = data_type_from_node pf64 pf32 n.
 Proof.
   intros H. unfold data_type_from_node.
   rewrite !(ins_attribute _ _ _ H).
@@ -166,7 +166,7 @@ Proof.
 Qed.
 
 Lemma record_from_node_ins n n' :
-  ins n n' -> record_from_node pf64 pf32 n' = record_from_node pf64 pf32 n.
+  fins n n' -> record_from_node pf64 pf32 n' = record_from_node pf64 pf32 n.
 Proof.
   intros H. pose proof (data_type_from_node_ins _ _ H) as Hd.
   inversion H as [| | |nm a a' sc ch ch' Ha Hl Hh]; subst; try reflexivity.
@@ -174,7 +174,7 @@ Proof.
 Qed.
 
 Lemma prototype_records_ins n n' :
-  ins n n' -> has_tag_name PROTOTYPE n = true ->
+  fins n n' -> is_tag PROTOTYPE n = true ->
   prototype_records pf64 pf32 n' = prototype_records pf64 pf32 n.
 Proof.
   intros H Hp. unfold prototype_records.
@@ -183,19 +183,19 @@ Proof.
 Qed.
 
 (** * blob.rs *)
-Lemma blob_from_node_ins n n' : ins n n' -> blob_from_node n' = blob_from_node n.
+Lemma blob_from_node_ins n n' : fins n n' -> blob_from_node n' = blob_from_node n.
 Proof.
   intros H. unfold blob_from_node. rewrite (ins_attr_is _ _ _ _ H), !(ins_attribute _ _ _ H). reflexivity.
 Qed.
 
 Lemma blob_from_parent_node_ins n n' nm :
-  ins n n' -> is_lookup_name nm = true -> blob_from_parent_node nm n' = blob_from_parent_node nm n.
+  fins n n' -> blob_from_parent_node nm n' = blob_from_parent_node nm n.
 Proof.
-  intros H Hn. unfold blob_from_parent_node. apply opt_node_ins; auto. apply blob_from_node_ins.
+  intros H. unfold blob_from_parent_node. apply opt_node_ins; auto. apply blob_from_node_ins.
 Qed.
 
 (** * pointcloud.rs *)
-Lemma original_guids_of_ins n n' : ins n n' -> original_guids_of n' = original_guids_of n.
+Lemma original_guids_of_ins n n' : fins n n' -> original_guids_of n' = original_guids_of n.
 Proof.
   intros H. unfold original_guids_of.
   apply map_ins; [apply ins_filter_elem_vector_child; assumption|].
@@ -203,28 +203,28 @@ Proof.
 Qed.
 
 Lemma original_guids_from_node_ins n n' :
-  ins n n' -> original_guids_from_node n' = original_guids_from_node n.
+  fins n n' -> original_guids_from_node n' = original_guids_from_node n.
 Proof.
   intros H. unfold original_guids_from_node.
-  apply opt_case_ins; [apply ins_find_child; [assumption|reflexivity]|].
+  apply opt_case_ins; [apply ins_find_child; assumption|].
   intros c c' Hc. rewrite (original_guids_of_ins _ _ Hc). reflexivity.
 Qed.
 
 Lemma find_child_typed_tag nm ty n c :
-  find_child_typed nm ty n = Some c -> has_tag_name nm c = true.
+  find_child_typed nm ty n = Some c -> is_tag nm c = true.
 Proof.
   unfold find_child_typed. intros H. apply find_some in H. destruct H as [_ H].
   apply andb_true_iff in H. tauto.
 Qed.
 
 Lemma points_from_node_ins n n' :
-  ins n n' -> points_from_node pf64 pf32 n' = points_from_node pf64 pf32 n.
+  fins n n' -> points_from_node pf64 pf32 n' = points_from_node pf64 pf32 n.
 Proof.
   intros H. unfold points_from_node, req_node.
-  apply opt_case_ins; [apply ins_find_child_typed; [assumption|reflexivity]|].
+  apply opt_case_ins; [apply ins_find_child_typed; assumption|].
   intros p p' Hp. rewrite !(ins_attribute _ _ _ Hp).
   repeat (apply res_bind_cong; [reflexivity|intros ?]).
-  pose proof (ins_find_child_typed (B"prototype") (B"Structure") p p' Hp eq_refl) as Hq.
+  pose proof (ins_find_child_typed (B"prototype") (B"Structure") p p' Hp) as Hq.
   destruct (find_child_typed (B"prototype") (B"Structure") p) as [q|] eqn:Eq;
     inversion Hq as [|x q' Hqq]; subst; cbn [opt_case]; [|reflexivity].
   rewrite (prototype_records_ins _ _ Hqq); [reflexivity|].
@@ -232,37 +232,51 @@ Proof.
 Qed.
 
 Lemma pointcloud_from_node_ins n n' :
-  ins n n' -> pointcloud_from_node pf64 pf32 n' = pointcloud_from_node pf64 pf32 n.
+  fins n n' -> pointcloud_from_node pf64 pf32 n' = pointcloud_from_node pf64 pf32 n.
 Proof.
   intros H. unfold pointcloud_from_node. rw H.
   repeat rewrite (opt_date_time_ins _ _ _ H) by reflexivity.
   rewrite (opt_transform_ins _ _ _ H) by reflexivity.
   rewrite (original_guids_from_node_ins _ _ H), (points_from_node_ins _ _ H).
-  rewrite (opt_node_ins (cartesian_bounds_from_node pf64) _ _ (B"cartesianBounds") H eq_refl cartesian_bounds_from_node_ins).
-  rewrite (opt_node_ins (spherical_bounds_from_node pf64) _ _ (B"sphericalBounds") H eq_refl spherical_bounds_from_node_ins).
-  rewrite (opt_node_ins index_bounds_from_node _ _ (B"indexBounds") H eq_refl index_bounds_from_node_ins).
-  rewrite (opt_node_ins (intensity_limits_from_node pf64 pf32) _ _ (B"intensityLimits") H eq_refl intensity_limits_from_node_ins).
-  rewrite (opt_node_ins (color_limits_from_node pf64 pf32) _ _ (B"colorLimits") H eq_refl color_limits_from_node_ins).
+  rewrite (opt_node_ins (cartesian_bounds_from_node pf64) _ _ (B"cartesianBounds") H cartesian_bounds_from_node_ins).
+  rewrite (opt_node_ins (spherical_bounds_from_node pf64) _ _ (B"sphericalBounds") H spherical_bounds_from_node_ins).
+  rewrite (opt_node_ins index_bounds_from_node _ _ (B"indexBounds") H index_bounds_from_node_ins).
+  rewrite (opt_node_ins (intensity_limits_from_node pf64 pf32) _ _ (B"intensityLimits") H intensity_limits_from_node_ins).
+  rewrite (opt_node_ins (color_limits_from_node pf64 pf32) _ _ (B"colorLimits") H color_limits_from_node_ins).
   reflexivity.
 Qed.
 
+Lemma e57_root_ins d d' :
+  fins_doc d d' ->
+  match e57_root d, e57_root d' with
+  | Ok o, Ok o' => orel fins o o'
+  | Panic, Panic => True
+  | _, _ => False
+  end.
+Proof.
+  intros H. unfold e57_root. destruct (ins_doc_root _ _ H) as [|r r' Hr]; [exact I|].
+  rewrite (ins_is_tag _ _ _ Hr). destruct (is_tag _ r); constructor. exact Hr.
+Qed.
+
 Lemma vec_from_document_ins {A} tag (f : xnode -> res A) d d' :
-  ins_doc d d' -> is_lookup_name tag = true -> (forall c c', ins c c' -> f c' = f c) ->
+  fins_doc d d' -> (forall c c', fins c c' -> f c' = f c) ->
   vec_from_document tag f d' = vec_from_document tag f d.
 Proof.
-  intros H Ht Hf. unfold vec_from_document.
-  apply opt_case_ins; [apply ins_find_doc_desc; assumption|].
-  intros v v' Hv. apply map_res_ins; [apply ins_filter_vector_child; assumption|exact Hf].
+  intros H Hf. unfold vec_from_document. pose proof (e57_root_ins _ _ H) as Hr.
+  destruct (e57_root d) as [o| |], (e57_root d') as [o'| |]; try contradiction; [|reflexivity].
+  cbn [res_bind]. apply opt_case_ins.
+  - destruct Hr as [|r r' Hrr]; cbn [opt_case]; [constructor|apply ins_find_child; exact Hrr].
+  - intros v v' Hv. apply map_res_ins; [apply ins_filter_vector_child; assumption|exact Hf].
 Qed.
 
 (** * images.rs *)
 Lemma image_blob_from_rep_node_ins n n' :
-  ins n n' -> image_blob_from_rep_node n' = image_blob_from_rep_node n.
+  fins n n' -> image_blob_from_rep_node n' = image_blob_from_rep_node n.
 Proof.
   intros H. unfold image_blob_from_rep_node.
-  apply opt_case_ins2; [apply ins_find_child; [assumption|reflexivity]| |].
+  apply opt_case_ins2; [apply ins_find_child; assumption| |].
   - intros c c' Hc. rewrite (blob_from_node_ins _ _ Hc). reflexivity.
-  - apply opt_case_ins; [apply ins_find_child; [assumption|reflexivity]|].
+  - apply opt_case_ins; [apply ins_find_child; assumption|].
     intros c c' Hc. rewrite (blob_from_node_ins _ _ Hc). reflexivity.
 Qed.
 
@@ -272,85 +286,69 @@ Ltac rwi H :=
   rw H.
 
 Lemma visual_reference_from_node_ins n n' :
-  ins n n' -> visual_reference_from_node n' = visual_reference_from_node n.
+  fins n n' -> visual_reference_from_node n' = visual_reference_from_node n.
 Proof. intros H. unfold visual_reference_from_node. rwi H. reflexivity. Qed.
 
 Lemma pinhole_from_node_ins n n' :
-  ins n n' -> pinhole_from_node pf64 n' = pinhole_from_node pf64 n.
+  fins n n' -> pinhole_from_node pf64 n' = pinhole_from_node pf64 n.
 Proof. intros H. unfold pinhole_from_node. rwi H. reflexivity. Qed.
 
 Lemma spherical_from_node_ins n n' :
-  ins n n' -> spherical_from_node pf64 fdiv n' = spherical_from_node pf64 fdiv n.
+  fins n n' -> spherical_from_node pf64 fdiv n' = spherical_from_node pf64 fdiv n.
 Proof. intros H. unfold spherical_from_node. rwi H. reflexivity. Qed.
 
 Lemma cylindrical_from_node_ins n n' :
-  ins n n' -> cylindrical_from_node pf64 n' = cylindrical_from_node pf64 n.
+  fins n n' -> cylindrical_from_node pf64 n' = cylindrical_from_node pf64 n.
 Proof. intros H. unfold cylindrical_from_node. rwi H. reflexivity. Qed.
 
 Lemma projection_from_image_node_ins n n' :
-  ins n n' -> projection_from_image_node pf64 fdiv n' = projection_from_image_node pf64 fdiv n.
+  fins n n' -> projection_from_image_node pf64 fdiv n' = projection_from_image_node pf64 fdiv n.
 Proof.
   intros H. unfold projection_from_image_node.
-  apply opt_case_ins2; [apply ins_find_child; [assumption|reflexivity]| |].
+  apply opt_case_ins2; [apply ins_find_child; assumption| |].
   { intros c c' Hc. rewrite (pinhole_from_node_ins _ _ Hc). reflexivity. }
-  apply opt_case_ins2; [apply ins_find_child; [assumption|reflexivity]| |].
+  apply opt_case_ins2; [apply ins_find_child; assumption| |].
   { intros c c' Hc. rewrite (spherical_from_node_ins _ _ Hc). reflexivity. }
-  apply opt_case_ins; [apply ins_find_child; [assumption|reflexivity]|].
+  apply opt_case_ins; [apply ins_find_child; assumption|].
   intros c c' Hc. rewrite (cylindrical_from_node_ins _ _ Hc). reflexivity.
 Qed.
 
 Lemma image_from_node_ins n n' :
-  ins n n' -> image_from_node pf64 fdiv n' = image_from_node pf64 fdiv n.
+  fins n n' -> image_from_node pf64 fdiv n' = image_from_node pf64 fdiv n.
 Proof.
   intros H. unfold image_from_node. rw H.
   rewrite (opt_transform_ins _ _ _ H) by reflexivity.
   rewrite (opt_date_time_ins _ _ _ H) by reflexivity.
   rewrite (projection_from_image_node_ins _ _ H).
-  rewrite (opt_node_ins visual_reference_from_node _ _ (B"visualReferenceRepresentation") H eq_refl visual_reference_from_node_ins).
+  rewrite (opt_node_ins visual_reference_from_node _ _ (B"visualReferenceRepresentation") H visual_reference_from_node_ins).
   reflexivity.
 Qed.
 
 (** * root.rs, extension.rs, e57_reader.rs *)
 Lemma root_from_document_ins d d' :
-  ins_doc d d' -> root_from_document pf64 d' = root_from_document pf64 d.
+  fins_doc d d' -> root_from_document pf64 d' = root_from_document pf64 d.
 Proof.
-  intros H. unfold root_from_document, req_node.
-  apply opt_case_ins; [apply ins_find_doc_desc; [assumption|reflexivity]|].
-  intros r r' Hr. rw Hr.
-  rewrite (opt_date_time_ins _ _ _ Hr) by reflexivity. reflexivity.
+  intros H. unfold root_from_document, req_node. pose proof (e57_root_ins _ _ H) as Hr.
+  destruct (e57_root d) as [o| |], (e57_root d') as [o'| |]; try contradiction; [|reflexivity].
+  cbn [res_bind]. apply opt_case_ins; [exact Hr|].
+  intros r r' Hrr. rw Hrr.
+  rewrite (opt_date_time_ins _ _ _ Hrr) by reflexivity. reflexivity.
 Qed.
 
 Lemma extensions_from_document_ins d d' :
-  ins_doc d d' -> extensions_from_document d' = extensions_from_document d.
+  fins_doc d d' -> extensions_from_document d' = extensions_from_document d.
 Proof.
-  intros H. unfold extensions_from_document, root_element. unfold ins_doc, ins_doc_gen in H.
-  induction H as [|c c' r r' Hc Hr IH]; cbn [find]; [reflexivity|].
-  rewrite (ins_is_element _ _ Hc).
-  inversion Hc; subst; cbn [is_element]; try exact IH. reflexivity.
-Qed.
-
-Lemma images2d_node_ins d d' : ins_doc d d' -> orel ins (images2d_node d) (images2d_node d').
-Proof.
-  intros H. unfold images2d_node.
-  destruct (ins_find_doc_desc (B"e57Root") d d' H eq_refl) as [|r r' Hr]; cbn [opt_case]; [constructor|].
-  apply ins_find_child; [exact Hr|reflexivity].
-Qed.
-
-Lemma images_from_document_ins d d' :
-  ins_doc d d' -> images_from_document pf64 fdiv d' = images_from_document pf64 fdiv d.
-Proof.
-  intros H. unfold images_from_document.
-  apply opt_case_ins; [apply images2d_node_ins; exact H|].
-  intros v v' Hv. apply map_res_ins; [apply ins_filter_vector_child; assumption|apply image_from_node_ins].
+  intros H. unfold extensions_from_document. destruct (ins_doc_root _ _ H) as [|r r' Hr]; [reflexivity|].
+  inversion Hr; reflexivity.
 Qed.
 
 Theorem extract_all_ins d d' :
-  ins_doc d d' -> extract_all pf64 pf32 fdiv d' = extract_all pf64 pf32 fdiv d.
+  fins_doc d d' -> extract_all pf64 pf32 fdiv d' = extract_all pf64 pf32 fdiv d.
 Proof.
-  intros H. unfold extract_all, pointclouds_from_document.
+  intros H. unfold extract_all, pointclouds_from_document, images_from_document.
   rewrite (root_from_document_ins _ _ H), (extensions_from_document_ins _ _ H).
-  rewrite (vec_from_document_ins (B"data3D") (pointcloud_from_node pf64 pf32) _ _ H eq_refl pointcloud_from_node_ins).
-  rewrite (images_from_document_ins _ _ H).
+  rewrite (vec_from_document_ins (B"data3D") (pointcloud_from_node pf64 pf32) _ _ H pointcloud_from_node_ins).
+  rewrite (vec_from_document_ins (B"images2D") (image_from_node pf64 fdiv) _ _ H image_from_node_ins).
   reflexivity.
 Qed.
 
@@ -358,10 +356,5 @@ Qed.
 Theorem extract_all_fattr d d' :
   fattr_doc d d' -> extract_all pf64 pf32 fdiv d' = extract_all pf64 pf32 fdiv d.
 Proof. intros H. apply extract_all_ins. apply fattr_doc_ins_doc. exact H. Qed.
-
-(** foreign elements whose subtree uses no looked-up local name, not in front of a leading text *)
-Theorem extract_all_fins_inert d d' :
-  fins_inert_doc d d' -> extract_all pf64 pf32 fdiv d' = extract_all pf64 pf32 fdiv d.
-Proof. intros H. apply extract_all_ins. apply fins_inert_doc_ins_doc. exact H. Qed.
 
 End Inert.
